@@ -48,6 +48,8 @@ def model_with(schema, home, text, seed):
     d = calls.diagram(schema, item)
     d['irdt'] = True
     d['udts'].append({'n': 'Count', 'base': 'integer', 'comp': ''})
+    # a second constant specification that holds a constant of the same name as the first one (and one of its own)
+    d['consts'].append({'n': 'Bounds', 'items': [{'n': 'LIMIT', 'ty': 'integer', 'v': '9'}, {'n': 'FLOOR', 'ty': 'integer', 'v': '1'}]})
     if home == 'func':
         d['funcs'].append({'n': 'target', 'ret': 'integer', 'body': text, 'params': PARAMS})
     elif home == 'bridge':
